@@ -1,5 +1,6 @@
 from typing import List, Type
 
+from sqlalchemy.exc import ArgumentError
 from sqlalchemy.inspection import inspect
 from sqlalchemy.orm.attributes import InstrumentedAttribute
 from sqlalchemy.orm.decl_api import DeclarativeMeta
@@ -61,7 +62,11 @@ class AstToSqlAlchemyOrmVisitor(common._CommonVisitors, visitor.NodeVisitor):
         left = self._maybe_sub_relationship_with_foreign_key(left)
         right = self._maybe_sub_relationship_with_foreign_key(right)
 
-        return op(left, right)
+        try:
+            return op(left, right)
+        except ArgumentError:
+            # E.g. `x lt null`: SQLAlchemy only accepts `=`, `!=` with NULL / booleans.
+            raise ex.TypeException(node.comparator.__class__.__name__, str(right))
 
     def visit_CollectionLambda(self, node: ast.CollectionLambda) -> ClauseElement:
         ":meta private:"
